@@ -309,18 +309,7 @@ def candidates(case):
             yield c
 
 
-def finding_matches(case, result, fd):
-    """Known-finding discriminators, evaluated on the minimised replay (never pattern-only)."""
-    if fd["id"] == "F2b":
-        if "from_graph cannot find output block" not in str(result.get("detail")):
-            return False
-        if not any(e["ev"] == "persist" and e.get("entry") == "dask" for e in case["history"]):
-            return False
-        from ..worker import exec_case
-        import sys
-
-        abl = dict(case)
-        abl["history"] = [dict(e, entry="method") if e["ev"] == "persist" else e for e in case["history"]]
-        r = exec_case(sys.modules[__name__], abl)
-        return r["status"] == "ok"
-    return False
+FINDING_ABLATIONS = {
+    "F2b": (H.pre_generic_driver, H.abl_generic_driver),
+    "F20": (H.pre_userfn, H.ablate_userfns),
+}
